@@ -188,6 +188,19 @@ def _import(name, globals=None, locals=None, fromlist=(), level=0):
     return _real_import(name, globals, locals, fromlist, level)
 
 
+def _post_serializable(m):
+    """typing.get_origin returns the real dict/set classes; the module compares them with its own
+    (shimmed) names `dict` / `set`"""
+    import typing
+    real_get_origin = typing.get_origin
+
+    def get_origin(t):
+        o = real_get_origin(t)
+        return values.TYPE_MAP.get(o, o) if o in (builtins.dict, builtins.set) else o
+    m.get_origin = get_origin
+
+
+POST_LOAD = {'serializable': _post_serializable}
 REPLACED = {}        # module name -> model module replacing a repo module wholesale (logger)
 
 
@@ -218,6 +231,8 @@ def load(name):
     except BaseException:
         del MODS[name]
         raise
+    if name in POST_LOAD:
+        POST_LOAD[name](m)
     return m
 
 
